@@ -133,6 +133,8 @@ def run(pid, tier, seed):
             grp["seg"] = per + 1
             groups.append((c8, gen_core.gen_seg_long(seed, 2 if q else 12, 11, common.slot_tags(c8)), "seglong", None))
             grp["seglong"] = 12
+            groups.append((c8, gen_core.gen_seg_reuse(seed, 10 if q else 150, common.slot_tags(c8)), "segreuse", None))
+            grp["segreuse"] = 4
         specs = {}
         if pid == "C15":
             # a node that is removed from the topology while a request is in flight on it (the node stays silent)
